@@ -501,4 +501,50 @@ theorem datagram_failed_consumes_nothing (s : Sock) (hc : s.closed = false) (buf
     (bag bag' : Bag) (hk : bagTrace bag r.tr bag') : bag' = bag :=
   datagram_failed_keeps_queue s hc buflen h0 script e r h pe herr bag bag' hk
 
+/-! ## exported for C19 (blocking calls are transparent to signal interruptions)
+
+EINTR alone (no would-block): the same equalities, cited by the C19 check under these names. -/
+
+theorem receive_eintr_transparent (s : Sock) (hb : s.blocking = true) (bufNull : Bool) (buflen : Nat) (script : Script) (e : Int) :
+    seen (call s (.receive bufNull buflen) script e) =
+    seen (call s (.receive bufNull buflen) (dropRetries .recv script e).1 (dropRetries .recv script e).2) :=
+  eintr_eagain_transparent_receive s hb bufNull buflen script e
+
+theorem receive_from_eintr_transparent (s : Sock) (hb : s.blocking = true) (w bn : Bool) (buflen : Nat) (script : Script) (e : Int) :
+    seen (call s (.receiveFrom w bn buflen) script e) =
+    seen (call s (.receiveFrom w bn buflen) (dropRetries .recvfrom script e).1 (dropRetries .recvfrom script e).2) :=
+  eintr_eagain_transparent_receive_from s hb w bn buflen script e
+
+theorem send_eintr_transparent (s : Sock) (hb : s.blocking = true) (buf : Option Bytes) (buflen : Nat) (script : Script) (e : Int) :
+    seen (call s (.send buf buflen) script e) =
+    seen (call s (.send buf buflen) (dropRetries .send script e).1 (dropRetries .send script e).2) :=
+  eintr_eagain_transparent_send s hb buf buflen script e
+
+theorem send_to_eintr_transparent (s : Sock) (hb : s.blocking = true) (a : Addr) (buf : Option Bytes) (buflen : Nat) (script : Script) (e : Int) :
+    seen (call s (.sendTo a buf buflen) script e) =
+    seen (call s (.sendTo a buf buflen) (dropRetries .sendto script e).1 (dropRetries .sendto script e).2) :=
+  eintr_eagain_transparent_send_to s hb a buf buflen script e
+
+theorem accept_eintr_transparent (s : Sock) (hb : s.blocking = true) (script : Script) (e : Int) :
+    seen (call s .accept script e) =
+    seen (call s .accept (dropRetries .accept script e).1 (dropRetries .accept script e).2) :=
+  eintr_eagain_transparent_accept s hb script e
+
+theorem connect_eintr_transparent (s : Sock) (addr : Addr) (script : Script) (e : Int) :
+    seen (call s (.connect addr) script e) =
+    seen (call s (.connect addr) (dropConnEintr script e).1 (dropConnEintr script e).2) :=
+  eintr_eagain_transparent_connect s addr script e
+
+/-- `poll_eintr` of C19 -/
+theorem poll_eintr_transparent (s : Sock) (cond : Int) (script : Script) (e : Int) :
+    seen (call s (.ioWait cond) script e) =
+    seen (call s (.ioWait cond) (dropPollEintr script e).1 (dropPollEintr script e).2) :=
+  eintr_eagain_transparent_io_condition_wait s cond script e
+
+/-- non-blocking mode: `EINTR` of the data call is retried as well (only that; would-block is reported) -/
+theorem nonblocking_eintr_transparent_loop (c : LoopCfg) (hb : c.blocking = false) (script : Script) (e : Int) :
+    (ioLoop c .data script e).obs =
+      (ioLoop c .data (dropDataEintr c.call.sys script e).1 (dropDataEintr c.call.sys script e).2).obs :=
+  ioLoop_dropDataEintr c hb script e
+
 end PV.Socket
